@@ -346,11 +346,13 @@ theorem step_fromWorld (w : World) (s : ApiState) (call : Call) (hs : fromWorld 
       | some p =>
         simp only [step, hi, hj]
         split
-        · intro gc hgc
-          simp only [List.mem_append, List.mem_singleton] at hgc
-          rcases hgc with h | rfl
-          · exact hs gc h
-          · exact ⟨c, List.mem_of_getElem? hi, p, List.mem_of_getElem? hj, rfl⟩
+        · split
+          · intro gc hgc
+            simp only [List.mem_append, List.mem_singleton] at hgc
+            rcases hgc with h | rfl
+            · exact hs gc h
+            · exact ⟨c, List.mem_of_getElem? hi, p, List.mem_of_getElem? hj, rfl⟩
+          · exact hs
         · exact hs
   | generate k t =>
     cases hk : s.results[k]? with
@@ -387,6 +389,85 @@ theorem generate_history_free_run (w : World) (h : List Call) (k : Nat) (t : T) 
   simp only [step, hk]
   exact generate_history_free w _ c p t
 
+/-- A parse that the front end refuses leaves no result behind: the parse results of the API object are the same as
+    before (so the `k`-th result and everything generated from it are untouched by refused parses in between —
+    `generate_history_free_run` quantifies over histories that contain them). -/
+theorem rejected_parse_keeps_results (w : World) (s : ApiState) (i j : Nat) (h : (step w s (.parse i j)).2 = .rejected) :
+    (step w s (.parse i j)).1.results = s.results := by
+  cases hi : w.cfgs[i]? with
+  | none => simp [step, hi] at h
+  | some c =>
+    cases hj : w.progs[j]? with
+    | none => simp [step, hi, hj] at h
+    | some p =>
+      simp only [step, hi, hj] at h ⊢
+      split
+      · split
+        · rename_i h1 h2; simp [h1, h2] at h
+        · rfl
+      · rfl
+
+/-! ### what is on disk afterwards
+
+`FileReaderWriter._write` is an unconditional `write_text`: the bytes of a written path are those of this call, whatever
+the path held before — the output of an earlier run for an *edited* IDL file (same declarations in another order: same
+file names, same sizes), of another program, of another context with the same output directory. -/
+
+def Outcome.written : Outcome → List (Path × ContentId)
+  | .wrote fs => fs
+  | .missingConfig fs => fs
+  | .crash fs => fs
+  | _ => []
+
+/-- a written path forgets what the disk held before -/
+theorem written_paths_forget_disk {κ : Type} (m m' : FMap κ) (ws : List (Path × κ)) (p : Path) (hp : p ∈ ws.map (·.1)) :
+    applyWrites m ws p = applyWrites m' ws p := by
+  induction ws generalizing m m' with
+  | nil => simp at hp
+  | cons w ws ih =>
+    have e1 : applyWrites m (w :: ws) = applyWrites (fun q => if q = w.1 then some w.2 else m q) ws := rfl
+    have e2 : applyWrites m' (w :: ws) = applyWrites (fun q => if q = w.1 then some w.2 else m' q) ws := rfl
+    rw [e1, e2]
+    by_cases h : p ∈ ws.map (·.1)
+    · exact ih _ _ h
+    · have hpw : p = w.1 := by
+        simp only [List.map_cons, List.mem_cons] at hp
+        rcases hp with hp | hp
+        · exact hp
+        · exact absurd hp h
+      have aux : ∀ (m : FMap κ), applyWrites m ws p = m p := by
+        intro m
+        have : ∀ (ws : List (Path × κ)) (m : FMap κ), p ∉ ws.map (·.1) → applyWrites m ws p = m p := by
+          intro ws
+          induction ws with
+          | nil => intro m _; rfl
+          | cons v vs ihv =>
+            intro m hv
+            have e : applyWrites m (v :: vs) = applyWrites (fun q => if q = v.1 then some v.2 else m q) vs := rfl
+            simp only [List.map_cons, List.mem_cons, not_or] at hv
+            rw [e, ihv _ hv.2]
+            simp [hv.1]
+        exact this ws m h
+      rw [aux, aux]
+      simp [hpw]
+
+/-- **History-free on disk**: from any state of the API object *and any content of the output directories* (`disk`),
+    every path that `generate` writes for the result of parsing `p` under `c` holds afterwards exactly what it holds
+    after a fresh process generated into empty directories. -/
+theorem generate_disk_history_free (w : World) (s : ApiState) (c : Cfg) (p : Prog) (t : T) (disk : FMap ContentId)
+    (path : Path) (hp : path ∈ (fresh w c p t).written.map (·.1)) :
+    applyWrites disk (generate w s (ctxOf c p) t).2.written path = applyWrites (fun _ => none) (fresh w c p t).written path := by
+  rw [generate_history_free]
+  exact written_paths_forget_disk _ _ _ _ hp
+
+/-- A writer that skips files whose fingerprint (here: the length of the content) is unchanged keeps the stale content
+    of an earlier run — the regenerated tree then depends on what was generated before. -/
+theorem fingerprint_skip_keeps_stale_content :
+    applyWritesSkipping String.length (applyWrites (fun _ => none) [(Path.rel ["e.hpp"], "LOW = 0, TOP = 1")])
+        [(Path.rel ["e.hpp"], "TOP = 0, LOW = 1")] (Path.rel ["e.hpp"])
+      ≠ applyWrites (fun _ => none) [(Path.rel ["e.hpp"], "TOP = 0, LOW = 1")] (Path.rel ["e.hpp"]) := by
+  decide
+
 /-! counterexamples: the pinned tree's `generate` with two configured contexts of one API object; the report -/
 
 def cfgA : Cfg := { gens := fun g => if g = .cpp then some { out := .one (.rel ["outA"]), content := "A" } else none }
@@ -408,6 +489,18 @@ example : (step world2 (runCalls world2 initState [.parse 0 0, .parse 1 1, .gene
 /-- The report accumulates (known finding): after parsing P and then Q with one API object, Q's report lists P's input as well. -/
 theorem report_accumulates_counterexample :
     (runCalls world2 initState [.parse 0 0, .parse 0 1]).1.frw.report.idl ≠ (runCalls world2 initState [.parse 0 1]).1.frw.report.idl := by
+  decide +kernel
+
+/-- the hypotheses of `generate_disk_history_free` are satisfiable: a regenerate after another program writes something,
+    and a refused parse in between changes nothing -/
+example : (generate world2 (runCalls world2 initState [.parse 0 0, .generate 0 .cpp, .parse 0 1]).1 (ctxOf cfgA progQ) .cpp).2.written ≠ [] := by
+  decide +kernel
+
+def progBad : Prog := { id := "R", reads := [.rel ["r.pydjinni"]], exts := [], defs := [], accepted := false }
+def world3 : World := { world2 with progs := [progP, progQ, progBad] }
+
+example : (step world3 (runCalls world3 initState [.parse 0 0]).1 (.parse 1 2)).2 = .rejected := by decide +kernel
+example : (step world3 (runCalls world3 initState [.parse 0 0, .parse 1 2]).1 (.generate 0 .cpp)).2 = fresh world3 cfgA progP .cpp := by
   decide +kernel
 
 /-! ### target order -/
